@@ -118,6 +118,9 @@ func (s *Sample) UnmarshalJSON(data []byte) error {
 	if err := json.Unmarshal(data, &jsonSample); err != nil {
 		return err
 	}
+	if jsonSample.Proof != nil && len(jsonSample.Share.ToBytes()) != libshare.ShareSize {
+		return errors.New("sample carries a proof but no share")
+	}
 
 	s.Share = jsonSample.Share
 	s.Proof = jsonSample.Proof
